@@ -173,12 +173,14 @@ def run(tier, seed):
         return ck.finish(RULE, TRUSTED, ASSUME)
     rng = ck.rng
     thorough = tier == 'thorough'
-    env = apel.PluginEnv(allow=True).install()
+    env = apel.PluginEnv(allow=True, ud={'x2222': ('raises', 'boom'), 'x3333': ('none',), 'x1111': ('echo',)}).install()
     tmp = tempfile.mkdtemp(prefix='c12_')
     try:
         good = pelbuild.pel([pelbuild.UH(), pelbuild.SRC(), pelbuild.UD(b'hello\nworld')], eid=0x50000abc)
         hidden = pelbuild.pel([pelbuild.UH(af=0x4000), pelbuild.UD(b'x')], eid=0x50000abd)
-        inputs = [('doc', good, True), ('filtered', hidden, False), ('failed', good[:100], True), ('failed', b'XX' + good[2:], True)]
+        # a log whose sections go to parser modules that raise / answer nothing / echo: decodes to a document all the same
+        plugged = pelbuild.pel([pelbuild.UH(), pelbuild.UD(b'abc', sub=7, comp=0x2222), pelbuild.UD(b'def', sub=7, comp=0x3333), pelbuild.UD(b'ghi', sub=7, comp=0x1111)], creator=b'x', eid=0x50000abe)
+        inputs = [('doc', good, True), ('doc', plugged, True), ('filtered', hidden, False), ('failed', good[:100], True), ('failed', b'XX' + good[2:], True)]
         if thorough:
             d = clirun.keep_decodable(env, clirun.gen_wf_dir(rng, 6))
             inputs += [('doc', apel.enc_pel(p), True) for _, p in d]
